@@ -579,12 +579,22 @@ impl C10 {
                     if i < n {
                         // epsilon-insensitive optimality at training point i, judged with the reference expansion
                         let r = ys[i] - f;
-                        // f64: tol + rounding of the reference arithmetic. f32: the solver updates its gradients
-                        // incrementally in single precision; the drift it accumulates over the iterations is of the
-                        // order of 1e-3 of the target scale (measured: up to 0.5 at |y| ~ 1000, C = 100), far above
-                        // tol. The f32 runs therefore judge optimality only down to that level — a sharper f32 oracle
-                        // was tried and raised alarms on the unchanged tree (DESIGN 9.5).
-                        let slack = tol_eff + if case.f32m { 1e-3 } else { 1e-9 } * (yscale + mag);
+                        // f64: tol + rounding of the reference arithmetic.
+                        // f32: three legitimate contributions, none of them scaled by the LARGEST target (one outlier
+                        // target must not loosen the judgement of every other row):
+                        //  (a) the repaired solver stops at max(tol, 8 ulp of the extreme gradients), which are of the
+                        //      size of the bias at convergence;
+                        //  (b) it updates its gradients incrementally in single precision: after `ticks` iterations row
+                        //      i may have drifted by ~ticks ulps (judged with 16 x that) of the largest value its gradient can take,
+                        //      |y_i| + eps + C * sum_j |K_ij|;
+                        //  (c) the stored f32 coefficients are rounded (256 ulp of the expansion's magnitude).
+                        let slack = if case.f32m {
+                            let e32 = f32::EPSILON as f64;
+                            let gi = ys[i].abs() + eps_eff + c_eff * xs.iter().map(|xj| kref(&case.kernel, row, xj).abs()).sum::<f64>();
+                            tol_eff.max(16.0 * e32 * (b.abs() + eps_eff + 1.0)) + 16.0 * e32 * (ticks.get() as f64 + 8.0) * gi + 256.0 * e32 * mag
+                        } else {
+                            tol_eff + 1e-9 * (yscale + mag)
+                        };
                         let aw = wrow[i].abs();
                         let (ok, what, excess) = if aw == 0.0 {
                             (r.abs() <= eps_eff + slack, "zero weight but outside the tube", r.abs() - eps_eff)
@@ -594,6 +604,7 @@ impl C10 {
                             ((r.abs() - eps_eff).abs() <= slack, "0 < |w| < C but not on the tube boundary", (r.abs() - eps_eff).abs())
                         };
                         rep.max(if case.f32m { "svr_kkt_excess_over_tol_f32" } else { "svr_kkt_excess_over_tol_f64" }, excess / tol_eff);
+                        rep.max(if case.f32m { "svr_kkt_excess_over_slack_f32" } else { "svr_kkt_excess_over_slack_f64" }, excess / slack);
                         if !ok {
                             rep.fail(
                                 "svr-kkt",
